@@ -130,6 +130,15 @@ fn generate(cli: &Cli) -> Vec<Case> {
                             let nt = rng.range(1, 4) as usize;
                             let mut adapters = mk::routing_adapters(if auth_ok { Some((&authed, &authed_props)) } else { None }, mk::targets(&mut rng, nt));
                             adapters.strategy = StrategyScript::Position(rng.below(4) as usize);
+                            // a session service that takes its time (seconds to minutes): its verdict is
+                            // still the only thing that admits anybody
+                            adapters.auth_latency = match rng.below(10) {
+                                0 => Duration::from_secs(5),
+                                1 => Duration::from_millis(10_500),
+                                2 => Duration::from_secs(31),
+                                3 => Duration::from_secs(95),
+                                _ => Duration::ZERO,
+                            };
                             let class = format!(
                                 "{}/{}/cookie-{}/auth-{}/{}",
                                 intent.name(),
